@@ -109,8 +109,11 @@ class SimTransport(asyncio.Transport):
         self.lost_called = False
         self.fail_writes: BaseException | None = None
         self.writes_after_close = 0
+        self.on_write = None  # observer called with the bytes of every write attempt
 
     def write(self, data):
+        if self.on_write is not None:
+            self.on_write(bytes(data))
         if self.fail_writes is not None:
             raise self.fail_writes
         if self.closing:
